@@ -30,3 +30,5 @@ LEVEL_TEXT = ("Deductive: every function between the property and the code (orde
 
 from shell import runtime as _runtime
 SHELL = [_runtime.contracts_at_run_time]
+
+USES_SUM_LEMMAS = True
